@@ -8,7 +8,11 @@ package corr
 // (a tick that falls exactly on an arrival instant is processed first).
 //
 // ops (every op first advances the clock by dt ns):
-//   cfg interval=<ns>                        only as the first op (default 1 s)
+//   cfg interval=<ns> [skew=<ns>]            only as the first op (default 1 s).  skew: the clock configured with
+//                                            ReceiverNow runs `skew` ns ahead of (negative: behind) the clock that
+//                                            drives the ticker (the bubble's time.Now); arrival times AND report
+//                                            times are the configured clock's, the values the ticker channel
+//                                            delivers are not.  The model's clock starts at 2000-01-01 + skew.
 //   bind ssrc=<u32> rate=<u32> dt=<ns>       BindRemoteStream
 //   rtp ssrc=<u32> seq=<u16> ts=<u32> dt=<ns>   one RTP packet read through the bound reader
 //   sr ssrc=<u32> ntp=<u64> rtp=<u32> dt=<ns>   one incoming rtcp.SenderReport through BindRTCPReader
@@ -47,6 +51,7 @@ func c06Run(t *testing.T, ops []string, o *Out) {
 		var (
 			icpt     interceptor.Interceptor
 			interval = time.Second
+			skew     time.Duration
 			start    = time.Now()
 			mu       sync.Mutex
 			pending  []c06Rec
@@ -66,7 +71,8 @@ func c06Run(t *testing.T, ops []string, o *Out) {
 			if icpt != nil {
 				return
 			}
-			f, err := report.NewReceiverInterceptor(report.ReceiverNow(time.Now), report.ReceiverInterval(interval))
+			f, err := report.NewReceiverInterceptor(report.ReceiverNow(func() time.Time { return time.Now().Add(skew) }),
+				report.ReceiverInterval(interval))
 			if err != nil {
 				panic(err)
 			}
@@ -162,6 +168,9 @@ func c06Run(t *testing.T, ops []string, o *Out) {
 			switch {
 			case name == "cfg" && need("interval") && i == 0 && atoi(m["interval"]) > 0:
 				interval = time.Duration(atoi(m["interval"]))
+				if need("skew") {
+					skew = time.Duration(atoi(m["skew"]))
+				}
 			case name == "bind" && need("ssrc", "rate", "dt"):
 				adv(atoi(m["dt"]))
 				ssrc := uint32(atoi(m["ssrc"]))
@@ -268,6 +277,11 @@ func c06Gen(r *Rng, tier string, idx int) Case {
 	if (tier != "thorough" && idx%900 == 7) || (tier == "thorough" && idx%2500 == 7) {
 		return c06Sat24(r, idx)
 	}
+	// rebind: an SSRC is bound again (with or without an Unbind) with another clock rate and a fresh
+	// sequence/timestamp space (c06_rebind_test.go)
+	if idx%21 == 20 {
+		return c06Rebind(r)
+	}
 	big := tier == "thorough" && cl == "cycles" && idx%7000 == 5 // one `cycles` case in 7000 wraps the 16-bit cycle counter
 	ops := []string{}
 	interval := 1000000000
@@ -281,6 +295,9 @@ func c06Gen(r *Rng, tier string, idx int) Case {
 	}
 	if interval != 1000000000 || r.Chance(1, 8) {
 		ops = append(ops, fmt.Sprintf("cfg interval=%d", interval))
+	}
+	if r.Chance(1, 4) {
+		ops = []string{fmt.Sprintf("cfg interval=%d skew=%d", interval, c06Skew(r))}
 	}
 	rates := []int{8000, 48000, 90000, 1, 4294967295, 1000}
 	type st struct{ ssrc, rate, ext, ts, tsStep, pace int }
@@ -502,6 +519,12 @@ func c06Gen(r *Rng, tier string, idx int) Case {
 		ops = append(ops, "tick")
 	}
 	return Case{Class: cl, Ops: ops}
+}
+
+// c06Skew: by how much (ns) the configured clock is ahead of the ticker's: a millisecond to decades, both signs.
+func c06Skew(r *Rng) int {
+	return r.Pick(1, -1) * r.Pick(1000000, 999999999, 1000000000, 3600000000000, 86400000000000, 315576000000000000,
+		1104537600000000000, 2900000000000000000)
 }
 
 // c06Sat24: see the call site.  Variants: cross (n reports of `step-1` lost each, ending 5..150 reports beyond the
